@@ -4,8 +4,31 @@
 //! Output (one JSON object on the last stdout line):
 //!   {"harness":..,"outcome":"fail"|"pass"|"assume"|"unknown-harness","message":..,"notes":{..}}
 //! exit code: 1 = the harness assertion failed natively, 0 = passed, 3 = assumption violated / unusable tape
+use std::alloc::{GlobalAlloc, Layout, System};
 use std::panic;
 use sv::nd::{AssumeViolated, TapeNd};
+
+/// counting allocator: the native counterpart of the allocation-counting stubs of the C18 harnesses
+struct Counting;
+unsafe impl GlobalAlloc for Counting {
+    unsafe fn alloc(&self, l: Layout) -> *mut u8 {
+        sv::c18::ALLOCS += 1;
+        System.alloc(l)
+    }
+    unsafe fn alloc_zeroed(&self, l: Layout) -> *mut u8 {
+        sv::c18::ALLOCS += 1;
+        System.alloc_zeroed(l)
+    }
+    unsafe fn realloc(&self, p: *mut u8, l: Layout, n: usize) -> *mut u8 {
+        sv::c18::ALLOCS += 1;
+        System.realloc(p, l, n)
+    }
+    unsafe fn dealloc(&self, p: *mut u8, l: Layout) {
+        System.dealloc(p, l)
+    }
+}
+#[global_allocator]
+static GLOBAL: Counting = Counting;
 
 fn parse_tape(s: &str) -> Vec<Vec<u8>> {
     if s.is_empty() || s == "-" {
